@@ -314,12 +314,38 @@ func (g *Gen) ledgerScenario(steps int) {
 					}
 				}
 			}
+			// a block that would switch the trunk (its parent is as high as the tip, on another branch) but repeats a
+			// transaction of its own chain: refused only after the fork handling has run; then the old tip is extended
+			oldTip := e.ledgerTip()
+			dupOnSwitch := false
+			if !dupOnTrunk && oldTip >= 0 && base != oldTip && w.Blocks[base].Height == w.Blocks[oldTip].Height && g.r.Chance(1, 3) {
+				// only a transaction of a COMMON ancestor (on the main chain now): one of the side branch's own blocks would
+				// be accepted - the ledger stores a branch that repeats its own transaction (observation outside the
+				// property, see DESIGN "As built") - and the resulting chain is invalid
+				for _, a := range w.chain(base) {
+					if !w.isAncestorOrSelf(a, oldTip) {
+						continue
+					}
+					for _, x := range w.Blocks[a].Txs {
+						if x > 0 && !w.Txs[x].Coinbase && !dupOnSwitch {
+							ids = append(ids, fmt.Sprint(x))
+							dupOnSwitch = true
+						}
+					}
+				}
+			}
 			bi := len(w.Blocks)
 			g.emit(fmt.Sprintf("blk %d pre=%d prop=m1 aa=%d aw=%d txs=%s", bi, base, w.Award, len(w.Txs), strings.Join(ids, ",")))
-			if !dupOnTrunk && g.r.Chance(1, 8) {
+			if !dupOnTrunk && !dupOnSwitch && g.r.Chance(1, 8) {
 				unconfirmed = append(unconfirmed, bi) // arrives later (or never)
 			} else {
 				g.emit(fmt.Sprintf("confirm %d", bi))
+				g.emit("lcheck")
+			}
+			if dupOnSwitch && e.ledgerTip() == oldTip {
+				bj := len(w.Blocks)
+				g.emit(fmt.Sprintf("blk %d pre=%d prop=m1 aa=%d aw=%d txs=", bj, oldTip, w.Award, len(w.Txs)))
+				g.emit(fmt.Sprintf("confirm %d", bj))
 				g.emit("lcheck")
 			}
 		case x < 13: // duplicate confirmation of a stored block
